@@ -77,6 +77,31 @@ class Src:
                 t2 = re.sub(r"\b" + name + r"!\(\)", lambda _m: "{" + body + "}", t2)
                 t = t2
                 self.pre_rules += uses
+        # R32: `for X in [LIT, LIT, ..] { BODY }` (string/char literals only, BODY without break/continue) is unrolled
+        # textually: `{ let X = LIT; BODY }` once per literal — BODY stays verbatim in every copy
+        self.pre_rules32 = 0
+        while True:
+            m = re.search(r"for\s+(\w+)\s+in\s+\[((?:\s*(?:\"(?:[^\"\\\\]|\\\\.)*\"|'(?:[^'\\\\]|\\\\.)')\s*,?)+)\]\s*\{", t)
+            if not m:
+                break
+            i = m.end()
+            depth = 1
+            j = i
+            while j < len(t) and depth > 0:
+                if t[j] == "{":
+                    depth += 1
+                elif t[j] == "}":
+                    depth -= 1
+                j += 1
+            body_txt = t[i:j - 1]
+            if re.search(r"\b(break|continue)\b", body_txt):
+                break
+            lits = re.findall(r"\"(?:[^\"\\\\]|\\\\.)*\"|'(?:[^'\\\\]|\\\\.)'", m.group(2))
+            rep = "".join(f"{{ let {m.group(1)} = {l};{body_txt}}}\n" for l in lits)
+            t = t[:m.start()] + rep + t[j:]
+            self.pre_rules32 += 1
+        if self.pre_rules32:
+            self.pre_rules += self.pre_rules32
         if self.pre_rules:
             self.bytes = t.encode()
             parse_path = os.path.join(BUILD, "mut", rel.replace("/", "__"))
@@ -1014,6 +1039,16 @@ class Gen:
                         continue
                     ed.insert(n["s"], "(match ", ("rule", "R31"))
                     ed.replace(E["e"], n["e"], " { Some(__v) => __v, None => return None })", ("rule", "R31"))
+                    self.fired("R31")
+
+        if "try=result" in it["opts"]:
+            for n in walk(body):
+                if n["k"] == "Try" and not any(a0 <= n["s"] and n["e"] <= b0 for a0, b0 in dead):
+                    E = kid(n, "expr")
+                    if E["k"] == "MethodCall" and E["a"]["method"] in ("ok_or_else", "with_context", "context", "map_err"):
+                        continue
+                    ed.insert(n["s"], "(match ", ("rule", "R31"))
+                    ed.replace(E["e"], n["e"], " { Ok(__v) => __v, Err(__e) => return Err(__e) })", ("rule", "R31"))
                     self.fired("R31")
 
         # R8: error-message construction and logging are outside every property
